@@ -102,3 +102,17 @@ for _k in ("HMC", "NUTS"):
 from contracts.c07 import engine_init_unit  # noqa: E402
 
 engine_init_unit("C12.engine_init", "C12")
+
+
+# the builder and the engine constructor end to end through the public API (same harness as C10.build_end_to_end)
+from contracts.c10 import build_whole_unit  # noqa: E402
+
+build_whole_unit("C12.build_end_to_end", "C12", "A")
+build_whole_unit("C12.build_end_to_end.variant_b", "C12", "B")
+
+
+# "that epoch's recorded history of the kernel's own parameters": the engine hands tune() the CURRENT epoch's position history iff a kernel
+# needs it, after every adaptation epoch (same harness as C07.end_epoch)
+from contracts.c07 import E as _E, u_end_epoch  # noqa: E402
+
+unit("C12.engine_hands_over_this_epochs_history", "C12", [f"{_E}._end_epoch", f"{_E}._tune_kernels"], summaries=["KernelSequence.end_epoch / tune (C07.kernel_sequence)"])(u_end_epoch)
